@@ -313,6 +313,9 @@ class Exec:
         # environment stubs: callee regex -> tag.  The call is recorded as an event (tag, args) in the
         # path and returns an arbitrary value of the destination's type (Lazy).
         self.opaque_calls = []
+        # stub tag -> function(exec, args, state) whose result is stored with the event: the argument *values* at the
+        # time of the call (the recorded args are references, and what they point to may be overwritten later)
+        self.event_snapshot = {}
         self.npaths = 0
         self.called = set()
 
@@ -963,7 +966,8 @@ class Exec:
                         break
                 if stub is not None:
                     self.fresh_n += 1
-                    st["events"] = st.get("events", []) + [(stub, args)]
+                    snap = self.event_snapshot.get(stub)
+                    st["events"] = st.get("events", []) + [(stub, args) if snap is None else (stub, args, snap(self, args, st), self.fresh_n)]
                     if dest:
                         _, _, dty = self.parse_place(dest, fn)
                         self.assign(dest, Lazy(dty, "%s!%d" % (stub, self.fresh_n)), fn, st)
